@@ -94,6 +94,17 @@ def case_st(draw):
                 ops.append(("S", d, bytes([0x41]) * draw(st.sampled_from([buf - 1, buf - 1, buf - 2, buf - 3]))))
                 ops.append(("S", draw(st.sampled_from(dlcis)), b"after1"))
                 ops.append(("S", draw(st.sampled_from(dlcis)), b"after2"))
+    if draw(st.integers(0, 9)) == 0:
+        # a flood: a deep backlog of equal-sized messages (counters / totals crossing 2^8 and 2^16), a few messages on other
+        # DLCIs queued behind it, everything drained at the end
+        size = draw(st.sampled_from([1022, 1023, 1024, 510, 512, 2046, 2047, 64] if variant == "host" else [254, 255, 253, 126, 128, 62]))
+        nmsg = draw(st.sampled_from([32, 33, 64, 65, 66, 128, 129, 256, 257, 258, 300, 513]))
+        d = draw(st.sampled_from(dlcis))
+        pre = [("P", draw(st.integers(1, 40)))] if draw(st.booleans()) else []
+        if draw(st.booleans()):
+            ops = [("flood", d, nmsg, size)]          # nothing but the flood: totals are exact multiples of the message size
+        else:
+            ops = [("S", draw(st.sampled_from(dlcis)), b"x")] + pre + [("flood", d, nmsg, size)] + [("S", x, b"tail%d" % x) for x in dlcis[-2:]] + ops[:6]
     return {"variant": variant, "dlcis": dlcis, "ops": ops}
 
 
@@ -106,6 +117,13 @@ def oracle(case):
     toks = ["G %d" % d for d in dlcis]
     plan = []      # mirrors toks after the G's: (kind, data)
     resync = False
+    expanded = []
+    for o in ops:
+        if o[0] == "flood":
+            expanded += [("S", o[1], bytes([0x41 + (j % 26)]) * o[3]) for j in range(o[2])]
+        else:
+            expanded.append(o)
+    ops = expanded
     for o in ops:
         if o[0] == "S":
             toks.append("S %d %s" % (o[1], bytes(o[2]).hex() or "-"))
@@ -223,26 +241,18 @@ def oracle(case):
             n_after_overlong += 1
     # align deliveries with the frames fed to the receiver; a frame right after an over-long one may be missing
     # (identical messages make a greedy alignment ambiguous, so all alignments are tried)
-    import functools
-    import sys
-    sys.setrecursionlimit(max(sys.getrecursionlimit(), 10000))
-
-    @functools.lru_cache(maxsize=None)
-    def align(k, gi):
-        """number of lost frames of a valid alignment of exp[k:] with got[gi:], or None"""
-        if k == len(exp):
-            return 0 if gi == len(got) else None
-        best = None
-        if gi < len(got) and got[gi] == exp[k][:2]:
-            r = align(k + 1, gi + 1)
-            if r is not None:
-                best = r
-        if may_lose[k]:
-            r = align(k + 1, gi)
-            if r is not None and (best is None or r + 1 < best):
-                best = r + 1
-        return best
-    lost = align(0, 0)
+    cur = {0}                       # possible numbers of deliveries consumed so far
+    for k in range(len(exp)):
+        nxt = set()
+        for gi in cur:
+            if gi < len(got) and got[gi] == exp[k][:2]:
+                nxt.add(gi + 1)
+            if may_lose[k]:
+                nxt.add(gi)
+        cur = nxt
+        if not cur:
+            break
+    lost = (len(exp) - len(got)) if len(got) in cur else None
     if lost is None:
         # explain the first point of disagreement with a greedy walk
         gi = 0
@@ -260,6 +270,8 @@ def oracle(case):
         raise Violation("c06:rx:spurious-delivery", "delivered %r which was never sent (or twice)" % (got[gi][0] if gi < len(got) else None,))
     ol = len(overlong_at)
     cl = [v]
+    if len(sent) >= 64:
+        cl.append("deep-backlog")
     if len(interleaved) >= 2:
         cl.append(">=2 DLCIs")
     if escaped:
